@@ -29,6 +29,30 @@ fn show_text(t: &[u8]) -> String {
 pub struct Case {
     pub records: Vec<ZRec>,
     pub tape: Vec<u16>,
+    /// octets of comment lines put in front of the file, so that the records lie around the
+    /// 16 KiB points at which the parser refills its buffer
+    #[serde(default)]
+    pub pad: u32,
+}
+
+/// `n` octets of comment / blank lines and the number of lines they make up.
+fn padding(n: u32) -> (Vec<u8>, usize) {
+    let mut out = Vec::new();
+    let mut lines = 0;
+    let mut left = n as usize;
+    while left > 0 {
+        let take = left.min(61);
+        if take == 1 {
+            out.push(b'\n');
+        } else {
+            out.push(b';');
+            out.extend(std::iter::repeat(b'p').take(take - 2));
+            out.push(b'\n');
+        }
+        lines += 1;
+        left -= take;
+    }
+    (out, lines)
 }
 
 /// (line, owner wire, ttl, class, type, rdata)
@@ -75,6 +99,16 @@ pub fn oracle_c23(case: &Case, st: &mut Stats) -> Verdict {
     }
     if printed.features.len() >= 4 {
         st.nontrivial(&printed.text, || json!({"zone_file": show_text(&printed.text), "features": printed.features.iter().collect::<Vec<_>>()}));
+    }
+    let mut printed = printed;
+    if case.pad > 0 {
+        let (mut text, lines) = padding(case.pad);
+        text.extend_from_slice(&printed.text);
+        printed.text = text;
+        for e in printed.expected.iter_mut() {
+            e.0 += lines;
+        }
+        st.class("file-padded-beyond-16KiB");
     }
     let (got, err, _) = match q_parse(&printed.text) {
         Ok(v) => v,
@@ -225,7 +259,8 @@ pub fn records() -> impl Strategy<Value = Vec<ZRec>> {
 }
 
 pub fn case_strategy() -> impl Strategy<Value = Case> {
-    (records(), prop_oneof![1 => Just(Vec::new()), 8 => prop::collection::vec(any::<u16>(), 0..400)]).prop_map(|(records, tape)| Case { records, tape })
+    (records(), prop_oneof![1 => Just(Vec::new()), 8 => prop::collection::vec(any::<u16>(), 0..400)], prop_oneof![30 => Just(0u32), 2 => 16100u32..16400, 1 => 32500u32..32800])
+        .prop_map(|(records, tape, pad)| Case { records, tape, pad })
 }
 
 ////////////////////////////////////////////////////////////////////////
@@ -269,6 +304,12 @@ pub fn oracle_c24(case: &RawCase, st: &mut Stats) -> Verdict {
     }
     if err.is_none() {
         st.class("parsed-to-the-end");
+    }
+    if case.text.len() > 65_000 {
+        st.class("record-with-RDATA-within-3-octets-of-65535");
+        if got.iter().any(|r| r.5.len() > 65_000) {
+            st.class("record-with-more-than-65000-octets-of-RDATA-yielded");
+        }
     }
     if (!got.is_empty() && err.is_some()) || generic_known {
         st.nontrivial(&case.text, || json!({"input": show_text(&case.text), "records": got.len(), "error": err}));
@@ -323,6 +364,48 @@ pub fn raw_case() -> impl Strategy<Value = RawCase> {
         }),
         // random bytes
         1 => prop::collection::vec(any::<u8>(), 0..200).prop_map(|text| RawCase { text }),
+        // a TXT record whose RDATA ends within a few octets of the 65,535-octet limit, in presentation
+        // form (strings of up to 255 octets) or in generic form
+        1 => (-3i64..=3, 0usize..=255, any::<bool>(), 0u8..3, prop::bool::weighted(0.2)).prop_map(|(delta, first, quoted, tail, generic)| {
+            let target = (65535 + delta) as usize;
+            let mut text = b"big.example. 300 IN TXT".to_vec();
+            if generic {
+                text.extend_from_slice(format!(" \\# {target} ").as_bytes());
+                let mut left = target;
+                while left > 0 {
+                    let n = left.min(256);
+                    text.extend_from_slice(format!("{:02x}", n - 1).as_bytes());
+                    text.extend(std::iter::repeat(b"61".iter().copied()).take(n - 1).flatten());
+                    left -= n;
+                }
+            } else {
+                let push = |text: &mut Vec<u8>, n: usize| {
+                    text.push(b' ');
+                    if quoted || n == 0 {
+                        text.push(b'"');
+                    }
+                    text.extend(std::iter::repeat(b'y').take(n));
+                    if quoted || n == 0 {
+                        text.push(b'"');
+                    }
+                };
+                let mut total = first + 1;
+                push(&mut text, first);
+                while target - total > 256 {
+                    push(&mut text, 255);
+                    total += 256;
+                }
+                if target > total {
+                    push(&mut text, target - total - 1);
+                }
+            }
+            match tail {
+                0 => text.push(b'\n'),
+                1 => {}
+                _ => text.extend_from_slice(b"\nnext.example. 300 IN A 192.0.2.1\n"),
+            }
+            RawCase { text }
+        }),
         // records whose RDATA is given in RFC 3597 generic form: the wire form of a valid
         // RDATA of a known type, exact or slightly damaged (octets appended / removed /
         // changed, stated length off by one); the parser must reject or yield valid RDATA
